@@ -397,3 +397,42 @@ def split_children(cfg, chunk, keys):
             for i in range(n):
                 out[(int(ch[a, i, 0]), int(ch[a, i, 1]))] = (tuple(keys[a]), n, i)
     return out
+
+
+# ------------------------------------------------------------------------------------------------
+# the same configuration in a fresh interpreter process (other string-hash seed)
+# ------------------------------------------------------------------------------------------------
+def spawn_run(cfg, hashseed):
+    """start `python -m lv.c10_kit` on cfg in a new process with PYTHONHASHSEED=hashseed"""
+    import json
+    import os
+    import subprocess
+    import sys
+    env = dict(os.environ)
+    env["PYTHONHASHSEED"] = str(hashseed)
+    p = subprocess.Popen([sys.executable, "-m", "lv.c10_kit"], stdin=subprocess.PIPE, stdout=subprocess.PIPE,
+                         stderr=subprocess.DEVNULL, env=env, text=True)
+    p.stdin.write(json.dumps(cfg))
+    p.stdin.close()
+    return p
+
+
+def collect_run(p, timeout=600):
+    import json
+    try:
+        out = p.stdout.read()
+        p.wait(timeout=timeout)
+    except Exception as ex:
+        p.kill()
+        return {"error": "SubprocessFailed", "message": repr(ex)}
+    for line in reversed(out.splitlines()):
+        if line.startswith("C10OBS "):
+            return json.loads(line[7:])
+    return {"error": "SubprocessFailed", "message": out[-300:]}
+
+
+if __name__ == "__main__":
+    import json
+    import sys
+    _cfg = json.loads(sys.stdin.read())
+    print("C10OBS " + json.dumps(run_config(_cfg)))
